@@ -89,7 +89,7 @@ def run_impl(cases):
 def coq_term(case, out):
     if case["op"] != "seeds":
         return None
-    return "c07_eval %s %s %s" % (case["seed"], C.natlit(case["n_chains"]), C.natlit(case["k"]))
+    return "c07_eval %s %s %s ++ rng_uniform_eval %s" % (case["seed"], C.natlit(case["n_chains"]), C.natlit(case["k"]), case["seed"])
 
 
 def seeds_impl_flat(case, out):
@@ -112,6 +112,10 @@ def compare(case, out, model):
     f = seeds_impl_flat(case, out)
     if f is None:
         return "seed derivation panicked: %s" % json.dumps(out)[:300]
+    model, uni = model[:-5], model[-5:]
+    if out["uniforms"] != uni:
+        return ("Base.Rng uniform53 / uniform24 / inject_state disagree with rand's StandardUniform conversions or the harness's "
+                "injection state: implementation %s, model %s" % (out["uniforms"], uni))
     m_mh = model[:n * k]
     m_gs = model[n * k:n * k + n]
     m_go = model[n * k + n:2 * n * k + n]
